@@ -93,16 +93,17 @@ type c08Req struct {
 }
 
 type c08World struct {
-	r       *Run
-	w       *muxWorld
-	cfg     *muxCfg
-	streams []string
-	content bool
-	idx     *httpResp
-	refs    []*c08Ref
-	objects map[string][]byte // media object path -> bytes when first seen listed
-	latest  map[string]*mediaPL
-	lastMSN map[string]int // client/stream -> last media sequence seen
+	r           *Run
+	w           *muxWorld
+	cfg         *muxCfg
+	streams     []string
+	content     bool
+	idx         *httpResp
+	refs        []*c08Ref
+	objects     map[string][]byte // media object path -> bytes when first seen listed
+	latest      map[string]*mediaPL
+	lastMSN     map[string]int // client/stream -> last media sequence seen
+	goneChecked map[string]bool
 }
 
 // takeRefs records reference snapshots of all playlists at this rest point (no-hook probes).
@@ -145,6 +146,23 @@ func (c *c08World) takeRefs() {
 				return
 			}
 			c.latest[p] = pl
+			// a segment whose number is below the window of the playlist just served must not resolve any more (the
+			// writer may be parked inside a rotation at this moment: dropping it from the list and from the URL table
+			// belong to one critical section)
+			sid := strings.TrimSuffix(p, "_stream.m3u8")
+			for u := range c.objects {
+				if c.goneChecked[u] || !strings.Contains(u, "_"+sid+"_seg") {
+					continue
+				}
+				if n := uriNumber(u); n >= 0 && n < pl.MediaSequence {
+					c.goneChecked[u] = true
+					if o := w.get(u); o.isDone() && o.effStatus() == 200 && len(o.body) > 0 {
+						r.Fail("gone", "expired-still-served", "%s is below the window of %s (media sequence %d) and still answers 200 with %d bytes", u, p, pl.MediaSequence, len(o.body))
+						return
+					}
+					r.Probe("expired-uri-probed-mid-rotation")
+				}
+			}
 			// remember the bytes of every media object when first listed
 			var us []string
 			if pl.HasMap {
@@ -217,7 +235,7 @@ func runHeldReaders(r *Run, c05Only bool, bounds bool) {
 	}
 	nClients := T.Range(1, 6)
 	r.Tracef("config %s calls=%d clients=%d armed=[%s]", cfg, len(script), nClients, armed)
-	c := &c08World{r: r, w: w, cfg: cfg, objects: map[string][]byte{}, latest: map[string]*mediaPL{}, lastMSN: map[string]int{}}
+	c := &c08World{r: r, w: w, cfg: cfg, objects: map[string][]byte{}, latest: map[string]*mediaPL{}, lastMSN: map[string]int{}, goneChecked: map[string]bool{}}
 	var clients []*Task
 	for i := 0; i < nClients; i++ {
 		clients = append(clients, w.newClient(fmt.Sprintf("client%d", i)))
@@ -480,7 +498,7 @@ func scC08Race(r *Run) {
 	}
 	nClients := T.Range(1, 6)
 	r.Tracef("config %s calls=%d clients=%d", cfg, len(script), nClients)
-	c := &c08World{r: r, w: w, cfg: cfg, objects: map[string][]byte{}, latest: map[string]*mediaPL{}, lastMSN: map[string]int{}}
+	c := &c08World{r: r, w: w, cfg: cfg, objects: map[string][]byte{}, latest: map[string]*mediaPL{}, lastMSN: map[string]int{}, goneChecked: map[string]bool{}}
 	var clients []*Task
 	for i := 0; i < nClients; i++ {
 		clients = append(clients, w.newClient(fmt.Sprintf("client%d", i)))
